@@ -43,6 +43,9 @@ Ops == <<"Equal", "NotEqual", "GreaterThan", "LessThan",
          "GreaterOrEqual", "LessOrEqual", "BitsSet", "BitsNotSet">>
 OpSet == {Ops[i] : i \in 1..Len(Ops)}
 NamedActions == {"kill_thread", "kill_process", "trap", "errno", "trace", "log", "allow"}
+\* an action value may carry data bits (the errno to return, the tracer's message); a group's action is not validated and is
+\* returned as written: only the bare errno action gets EPERM
+DataActions == {"errno+2", "errno+13", "errno+38", "errno+4094", "trace+42", "trap+6"}
 \* constants.go: errno carries EPERM, everything else is returned as is
 EncAct(a) == IF a = "errno" THEN "errno|EPERM" ELSE a
 
